@@ -314,3 +314,19 @@ def conv_sorted(ctx, repo):
             ctx.ob("CONV-sorted", f.where, f"for ... in {norm(it)[:60]}", ok, "" if ok else "per-glyph data is laid out in mapping order: output bytes depend on dict construction order / PYTHONHASHSEED")
     if n < 2:
         raise AnalysisError(f"CONV-sorted: {n} per-glyph write loops found")
+
+
+def head_patch_guard(ctx, repo):
+    ctx.rule("HEAD-patch", "the checkSumAdjustment is patched into the written file at head.offset + 8 only when the stored 'head' has room for it (length >= 12): a damaged head carried as raw bytes may be shorter, and the write would land in the next table", floor=1)
+    m = repo.mod("ttLib/sfnt.py")
+    f = m.func("SFNTWriter.writeMasterChecksum")
+    g = CFG(f.node)
+    seeks = [c for c in ast.walk(f.node) if isinstance(c, ast.Call) and isinstance(c.func, ast.Attribute) and c.func.attr == "seek" and "offset + 8" in norm(c)]
+    if not seeks:
+        raise AnalysisError("SFNTWriter.writeMasterChecksum: seek to head.offset + 8 not found")
+    for sk in seeks:
+        # a dominating `if <head>.length < 12: return/raise`
+        guards = [n for n in walk_no_nested(f.node) if isinstance(n, ast.If) and "length" in norm(n.test) and any(isinstance(x, (ast.Return, ast.Raise)) for x in n.body)]
+        ok = any(g.dominates(g.id_of(gd), g.id_of(sk)) and ("< 12" in norm(gd.test) or "<= 11" in norm(gd.test)) for gd in guards)
+        pos = any(("length >= 12" in norm(t) or "length > 11" in norm(t)) and pol for t, pol in guard_conditions(sk))
+        ctx.ob("HEAD-patch", f.where, f"{norm(sk)} is reached only when head.length >= 12", ok or pos, "" if ok or pos else "a head table shorter than 12 bytes makes the 4-byte write clobber the table stored after it")
